@@ -166,6 +166,7 @@ def bytesRes (o : Out Bytes) : String :=
 
 /-- Spec verdict on a decompression result: bounded, no panic/hang, and the well-formed expectation. -/
 def decVerdict (codec : Int) (max : Nat) (res : String) (want : Option String) : String :=
+  if res.startsWith "pooldiff" then "0:user-pool-path-differs" else
   match obsOf res with
   | none => "0:unparsable-result"
   | some o =>
